@@ -258,11 +258,16 @@ func dropQuestionMarks(bindings map[string]interface{}) map[string]interface{} {
 // Watch out for concurrent access to the given bindings (as usual).
 func maybeCopyEvent(bs Bindings) {
 	if SystemParameters.CopyEvents {
-		if event, have := bs["?event"]; have {
-			// Maybe this event is the real even, or maybe it's
-			// just a regular binding.  We can't tell at this
-			// point.
-			bs["?event"] = Copy(event)
+		// The event, and every other binding that holds a map or an
+		// array (a part of the event, or of a fact, that a pattern
+		// variable matched): a script can write into those just as
+		// it can write into the event, and the other executions
+		// (and the stored fact) must not see that.
+		for k, v := range bs {
+			switch v.(type) {
+			case Map, map[string]interface{}, map[interface{}]interface{}, []interface{}:
+				bs[k] = Copy(v)
+			}
 		}
 	}
 	// To refrain from imitation is the best revenge.
